@@ -21,8 +21,12 @@ EXTENDS Integers, Sequences, FiniteSets
 CONSTANTS
     DedupCap,                 \* buffer_capacity of the session's de-duplication ring
     Defect_NoSessionStarted,  \* TRUE: as coded - SessionStarted is emitted nowhere
-    Defect_CloseNoTerminal,   \* TRUE: `sink.close().await?` returns before the terminal event (:319-321)
-    Defect_SyncSpin           \* TRUE: stream end in LogSync's Sync state -> `loop { select! { else => {} } }` spins
+    Defect_CloseNoTerminal,   \* TRUE: as before /repo 8e56cd3 - `sink.close().await?` returned before the terminal event
+    Defect_DropLateEvents,    \* TRUE: the manager stream drops the pending OperationReceived events of a session whose
+                              \*       live-mode channel it found closed (event_stream.rs:111-115, 136-142)
+    SelectAllFifo,            \* TRUE: refine the order in which the manager stream takes events of different sessions
+                              \*       to the one futures-util's SelectAll really uses (wake order, round robin)
+    Defect_SyncSpin           \* TRUE: as before /repo 3bc10a0 - stream end in LogSync's Sync state -> `loop { select! { else => {} } }` spins
 
 Range(s) == {s[k] : k \in 1..Len(s)}
 
@@ -34,12 +38,13 @@ LocalOp(k) == <<"l1", "l2", "l3">>[k]
 
 \* FIFO ring of spec/Dedup (dedup.rs:44-62)
 IsDup(d, x) == x \in Range(d)
-DedupInsert(d, x) ==
+DedupInsert(d, x, cap) ==
     IF x \in Range(d) THEN d
-    ELSE IF Len(d) + 1 > DedupCap THEN Append(Tail(d), x) ELSE Append(d, x)
+    ELSE IF Len(d) + 1 > cap THEN Append(Tail(d), x) ELSE Append(d, x)
 
 (* Session process record
      pc        next await point          live     live_mode_rx.is_some()
+     cap       buffer_capacity of the de-duplication ring
      nOut      local operations the remote needs (sent in the Sync burst)
      burstDone the `remote_needs` iterator is exhausted
      doneSent, doneRecv, closeSent       flags of the code
@@ -54,7 +59,7 @@ DedupInsert(d, x) ==
      sentAt    history: sequence of [x, at] for every Live(x) written                    *)
 
 NewSession(pc, live, nOut, failAt) ==
-    [pc |-> pc, live |-> live, nOut |-> nOut, burstDone |-> (nOut = 0),
+    [pc |-> pc, live |-> live, nOut |-> nOut, burstDone |-> (nOut = 0), cap |-> DedupCap,
      doneSent |-> FALSE, doneRecv |-> FALSE, closeSent |-> FALSE,
      inbox |-> <<>>, eos |-> FALSE, liveq |-> <<>>,
      sinkOps |-> 0, failAt |-> failAt, broken |-> FALSE, ok |-> TRUE,
@@ -79,7 +84,7 @@ TryClose(p) ==
     ELSE [p EXCEPT !.sinkOps = @ + 1, !.ok = TRUE]
 
 \* ring insertion with the history counters
-Accept(p, x) == [p EXCEPT !.dedup = DedupInsert(@, x), !.nAcc = @ + 1]
+Accept(p, x) == [p EXCEPT !.dedup = DedupInsert(@, x, p.cap), !.nAcc = @ + 1]
 
 Pop(p) == [p EXCEPT !.inbox = Tail(@)]
 
@@ -103,7 +108,9 @@ Burst(p, k) ==
 ---------------------------------------------------------------------------
 (* when is the process waiting for input                                   *)
 
-CanRecvSync(p) == ~p.doneRecv /\ p.inbox # <<>>          \* select arm 1 ready (log_sync.rs:300)
+\* select arm 1 ready (log_sync.rs:300-308). Since /repo 3bc10a0 the arm also fires on the end of
+\* the stream (-> UnexpectedStreamClosure); before, `Some(message) = stream.next()` disabled it.
+CanRecvSync(p) == ~p.doneRecv /\ (p.inbox # <<>> \/ (p.eos /\ ~Defect_SyncSpin))
 CanBurst(p) == ~p.burstDone                              \* select arm 2 ready (:354)
 
 Blocked(p) ==
@@ -118,7 +125,8 @@ Runnable(p) == p.res = "run" /\ ~Blocked(p)
 ---------------------------------------------------------------------------
 (* one micro step: the set of possible successors                          *)
 
-RecvSyncMsg(p) ==      \* log_sync.rs:300-352
+RecvSyncMsg(p) ==      \* log_sync.rs:300-358
+    IF p.inbox = <<>> THEN SyncErr(p) ELSE      \* stream ended before the remote's Done
     LET m == Head(p.inbox) q == Pop(p) IN
     CASE m.k = "Op"   -> IF IsDup(q.dedup, m.x) THEN q
                          ELSE [Emit(Accept(q, m.x), "Op", m.x) EXCEPT !.evAt = [n \in (DOMAIN @) \cup {m.x} |-> IF n = m.x THEN q.nAcc + 1 ELSE @[n]]]
@@ -215,6 +223,13 @@ TerminalMatchesResult(p) ==
         (p.ev[Len(p.ev)].e = "SessionFinished") = (p.res = "ok")
 Lifecycle(p) == LifecycleOrder(p) /\ TerminalEventWhenOver(p) /\ TerminalMatchesResult(p)
 
+\* the two halves used by the run that carries the recorded defect "SessionStarted is emitted nowhere"
+SessionStartedFirst(p) == p.ev # <<>> => p.ev[1].e = "SessionStarted"
+LcStateAfterStart(p) == LcRun(IF p.ev # <<>> /\ p.ev[1].e # "SessionStarted" THEN "S1" ELSE "S0", p.ev)
+LifecycleAfterStart(p) ==
+    /\ LcStateAfterStart(p) # "dead"
+    /\ p.res # "run" => LcStateAfterStart(p) = "T"
+
 ---------------------------------------------------------------------------
 (* C23 per-session predicates (history based)                              *)
 
@@ -222,14 +237,14 @@ Lifecycle(p) == LifecycleOrder(p) /\ TerminalEventWhenOver(p) /\ TerminalMatches
 \* the session more than DedupCap other insertions were accepted
 AtMostOnceInWindow(p) ==
     \A i, j \in 1..Len(p.sentAt) :
-        (i < j /\ p.sentAt[i].x = p.sentAt[j].x) => p.sentAt[j].at - p.sentAt[i].at > DedupCap
+        (i < j /\ p.sentAt[i].x = p.sentAt[j].x) => p.sentAt[j].at - p.sentAt[i].at > p.cap
 
 \* never back to the peer it came from: an operation this session reported as received from its
 \* remote is not written to that remote while it is inside the window
 NeverBackToSource(p) ==
     \A i \in 1..Len(p.sentAt) :
         LET x == p.sentAt[i].x IN
-        (x \in DOMAIN p.evAt /\ p.evAt[x] < p.sentAt[i].at) => p.sentAt[i].at - p.evAt[x] > DedupCap
+        (x \in DOMAIN p.evAt /\ p.evAt[x] < p.sentAt[i].at) => p.sentAt[i].at - p.evAt[x] > p.cap
 
 ---------------------------------------------------------------------------
 (* The two machines.  Sessions live in `ss`; each has a scripted remote    *)
@@ -324,11 +339,17 @@ Run(s) ==
     /\ Runnable(ss[s])
     /\ \E p \in RunSet(ss[s]) :
           /\ ss' = [ss EXCEPT ![s] = p]
-          /\ mgr' = [mgr EXCEPT !.bq[s] = @ \o NewEvents(ss[s], p)]
+          /\ mgr' = [mgr EXCEPT !.bq[s] = @ \o NewEvents(ss[s], p),
+                                 \* the first new event wakes the session's stream inside SelectAll
+                                 !.rq = IF SelectAllFifo /\ NewEvents(ss[s], p) # <<>> /\ s \notin Range(@)
+                                        THEN Append(@, s) ELSE @]
     /\ UNCHANGED <<rem, topicOf, faults>>
 
-NoMgr == [bq |-> [s \in Sessions |-> <<>>], dd |-> <<>>, out |-> <<>>,
-          given |-> [s \in Sessions |-> <<>>], proc |-> {}]
+\* bq: events emitted by a session, not yet taken by the manager stream;  rq: SelectAll's ready queue
+\* map: sessions in the stream's SessionTopicMap;  dd: its de-duplication buffer;  out: consumer
+\* given / proc / lost: history
+NoMgr == [bq |-> [s \in Sessions |-> <<>>], rq |-> <<>>, map |-> Sessions, dd |-> <<>>, out |-> <<>>,
+          given |-> [s \in Sessions |-> <<>>], proc |-> {}, lost |-> {}]
 
 ---------------------------------------------------------------------------
 (* Machine 1 (C22): one session from the start, scripted remote, faults    *)
@@ -358,6 +379,8 @@ C22_Lifecycle == \A s \in Sessions : Lifecycle(ss[s])
 \* once the connection has ended a session that cannot run any more has returned
 C22_NoHang == \A s \in Sessions : (rem[s].ended /\ ~Runnable(ss[s])) => ss[s].res # "run"
 C22_NoSpin == \A s \in Sessions : ss[s].res # "spin"
+C22_SessionStartedFirst == \A s \in Sessions : SessionStartedFirst(ss[s])
+C22_LifecycleAfterStart == \A s \in Sessions : LifecycleAfterStart(ss[s])
 
 ---------------------------------------------------------------------------
 (* Machine 2 (C23): several sessions already in live mode, one manager     *)
@@ -379,26 +402,44 @@ LiveInit ==
    [m, q, item] results; item = "-" means Pending (nothing left).                           *)
 Others(s) == {t \in Sessions : t # s /\ topicOf[t] = topicOf[s]}
 
-Forward(q, s, x) ==     \* :121-139 `tx.send(ToSync::Payload(..))` to every other session of the topic
-    [t \in Sessions |-> IF t \in Others(s) /\ ss[t].res = "run" THEN Append(q[t], Msg("Payload", x)) ELSE q[t]]
+\* :117-142 `tx.send(ToSync::Payload(..))` to every other registered session of the topic; a
+\* session whose receiver is gone (its run() returned) is dropped from the map
+Targets(m, s) == Others(s) \cap m.map
+Forward(q, m, s, x) ==
+    [t \in Sessions |-> IF t \in Targets(m, s) /\ ss[t].res = "run" THEN Append(q[t], Msg("Payload", x)) ELSE q[t]]
+MapAfterForward(m, s) == m.map \ {t \in Targets(m, s) : ss[t].res # "run"}
 
-RECURSIVE PollSet(_, _)
-PollSet(m, q) ==
-    LET ready == {s \in Sessions : m.bq[s] # <<>>} IN
-    IF ready = {} THEN {[m |-> m, q |-> q, item |-> None]}
+\* SelectAll: which session's stream yields next, and the ready queue afterwards
+RECURSIVE FifoPick(_, _)
+FifoPick(m, rq) ==     \* skip streams that are polled and turn out Pending
+    IF rq = <<>> THEN [s |-> None, rq |-> <<>>]
+    ELSE IF m.bq[Head(rq)] # <<>> THEN [s |-> Head(rq), rq |-> Append(Tail(rq), Head(rq))]
+         ELSE FifoPick(m, Tail(rq))
+Picks(m, fifo) ==
+    IF fifo THEN LET pk == FifoPick(m, m.rq) IN IF pk.s = None THEN {} ELSE {pk}
+    ELSE {[s |-> t, rq |-> m.rq] : t \in {u \in Sessions : m.bq[u] # <<>>}}
+
+RECURSIVE PollSetG(_, _, _)
+PollSetG(m, q, fifo) ==
+    IF Picks(m, fifo) = {} THEN {[m |-> [m EXCEPT !.rq = IF fifo THEN <<>> ELSE @], q |-> q, item |-> None]}
     ELSE UNION {
-        LET e == Head(m.bq[s])
-            m1 == [m EXCEPT !.bq[s] = Tail(@)] IN
+        LET s == pk.s
+            e == Head(m.bq[s])
+            m1 == [m EXCEPT !.bq[s] = Tail(@), !.rq = pk.rq] IN
         IF e.e # "Op"
         THEN {[m |-> [m1 EXCEPT !.out = Append(@, [s |-> s, e |-> e.e, x |-> e.x])], q |-> q, item |-> e.e]}    \* :103-106
-        ELSE LET q1 == Forward(q, s, e.x)
-                 m2 == [m1 EXCEPT !.proc = @ \cup {<<s, e.x>>},
-                                  !.given = [t \in Sessions |-> IF q1[t] # q[t] THEN Append(@[t], e.x) ELSE @[t]]] IN
-             IF e.x \in Range(m2.dd)
-             THEN PollSet(m2, q1)                                                                     \* :144-146 continue
-             ELSE {[m |-> [m2 EXCEPT !.dd = Append(@, e.x), !.out = Append(@, [s |-> s, e |-> "Op", x |-> e.x])],
-                    q |-> q1, item |-> "Op"]}
-        : s \in ready}
+        ELSE IF Defect_DropLateEvents /\ s \notin m1.map
+             THEN PollSetG([m1 EXCEPT !.lost = @ \cup {<<s, e.x>>}], q, fifo)                        \* :111-115 `continue`
+             ELSE LET q1 == Forward(q, m1, s, e.x)
+                      m2 == [m1 EXCEPT !.proc = @ \cup {<<s, e.x>>}, !.map = MapAfterForward(m1, s),
+                                       !.given = [t \in Sessions |-> IF q1[t] # q[t] THEN Append(@[t], e.x) ELSE @[t]]] IN
+                  IF e.x \in Range(m2.dd)
+                  THEN PollSetG(m2, q1, fifo)                                                          \* :144-146 `continue`
+                  ELSE {[m |-> [m2 EXCEPT !.dd = Append(@, e.x), !.out = Append(@, [s |-> s, e |-> "Op", x |-> e.x])],
+                         q |-> q1, item |-> "Op"]}
+        : pk \in Picks(m, fifo)}
+
+PollSet(m, q) == PollSetG(m, q, SelectAllFifo)
 
 ManagerPoll ==
     /\ \E s \in Sessions : mgr.bq[s] # <<>>
@@ -407,11 +448,15 @@ ManagerPoll ==
           /\ ss' = [s \in Sessions |-> [ss[s] EXCEPT !.liveq = r.q[s]]]
     /\ UNCHANGED <<rem, topicOf, faults>>
 
+\* at most MaxFaults sessions are closed / cut by their remotes in one behaviour
+CanLeave(s) == Cardinality({t \in Sessions : rem[t].pos = "Closed" \/ rem[t].ended}) < MaxFaults
+
 LiveNext ==
     \/ ManagerPoll
     \/ \E s \in Sessions :
         \/ Run(s)
-        \/ RemoteClose(s) \/ RemoteEnd(s)
+        \/ (CanLeave(s) /\ RemoteClose(s))
+        \/ ((rem[s].pos = "Closed" \/ CanLeave(s)) /\ RemoteEnd(s))
         \/ \E x \in LiveOps : RemoteLive(s, x)
 
 InternallyQuiet == (\A s \in Sessions : ~Runnable(ss[s])) /\ (\A s \in Sessions : mgr.bq[s] = <<>>)
@@ -431,10 +476,12 @@ C23_NotForwardedToSource ==
 \* written Live(x) to its remote or had received x from its remote itself
 C23_DeliveredWhenQuiet ==
     InternallyQuiet =>
-        \A pr \in mgr.proc : \A t \in Others(pr[1]) :
+        \A s \in Sessions : \A x \in DOMAIN ss[s].evAt : \A t \in Others(s) :
             ss[t].res = "run" =>
-                \/ \E i \in 1..Len(ss[t].sent) : ss[t].sent[i] = Msg("Live", pr[2])
-                \/ pr[2] \in DOMAIN ss[t].evAt
+                \/ \E i \in 1..Len(ss[t].sent) : ss[t].sent[i] = Msg("Live", x)
+                \/ x \in DOMAIN ss[t].evAt
+\* no OperationReceived event of a session is thrown away by the manager stream
+C23_NoEventLost == mgr.lost = {}
 C23_AtMostOncePerSession == \A s \in Sessions : AtMostOnceInWindow(ss[s])
 C23_NeverBackToSource == \A s \in Sessions : NeverBackToSource(ss[s])
 C23_ConsumerAtMostOnce ==
